@@ -473,6 +473,26 @@ def files_sx(l):
     return [[bytes(p).decode(), [int(x) for x in ids]] for p, ids in l]
 
 
+def sortnames_translator(ctx):
+    """translators/sortnames2coq.py: ParquetFile._sort_part_names regenerated as Gallina and proved equal to Edit.sort_pnames_fixed
+    (coq/genproofs/GenSortNamesProofs.v: C09_sort_part_names on the regenerated text); fail closed -> translator_fallback note"""
+    import sys
+    sys.path.insert(0, C.VERIF)
+    from translators import sortnames2coq
+    r = sortnames2coq.run(C.REPO, ctx.gen_dir)
+    ctx.extra.setdefault("translator", {})["GenSortNames"] = {k: v for k, v in r.items() if k not in ("file", "text")}
+    if r["status"] != "translated":
+        ctx.notes.append("translator_fallback: GenSortNames: %s" % r["reason"])
+        return False
+    ok, out = C.coqc(r["file"], extra_q=[(ctx.gen_dir, "PqGen")])
+    if not ok:
+        ctx.notes.append("translator_fallback: GenSortNames: generated file rejected by coqc: %s" % out[-300:])
+        ctx.extra["translator"]["GenSortNames"]["status"] = "translator_fallback"
+        return False
+    ctx.coq_file(os.path.join(C.COQ, "genproofs", "GenSortNamesProofs.v"), extra_q=[(ctx.gen_dir, "PqGen")])
+    return True
+
+
 def run(ctx):
     C.coq_lib()
     ctx.trusted = TRUSTED
@@ -481,6 +501,7 @@ def run(ctx):
     ctx.obligation("hygiene: no Admitted/Axiom/Parameter/... in coq/", not bad, "; ".join(bad))
     from harness import dsfs
     dsfs.partnames_translator(ctx)
+    sortnames_translator(ctx)
     if not ctx.quick():
         from harness import dsedit2_lib as _L
         _L.coqchk(ctx, ["Pq.Proofs.EditHistory"])
